@@ -65,7 +65,7 @@ func coldStart(c *rt.Ctx, prop string, n int) {
 			defer wg.Done()
 			defer func() { <-sem }()
 			cmd := exec.Command(os.Args[0], prop)
-			cmd.Env = append(os.Environ(), fmt.Sprintf("VERIF_COLD=%s/%d", prop, i), "GOTRACEBACK=single")
+			cmd.Env = append(coldEnv(i), fmt.Sprintf("VERIF_COLD=%s/%d", prop, i), "GOTRACEBACK=single")
 			out, err := cmd.CombinedOutput()
 			mu.Lock()
 			defer mu.Unlock()
@@ -89,6 +89,7 @@ func coldStart(c *rt.Ctx, prop string, n int) {
 					v.Args = map[string]any{}
 				}
 				v.Args["cold_start_index"] = i
+				v.Args["environment"] = strings.Join(hostileEnvs[i%len(hostileEnvs)], " ")
 				v.Key = "cold-start:" + v.Key
 				c.ImportViolation(v)
 			}
@@ -98,9 +99,39 @@ func coldStart(c *rt.Ctx, prop string, n int) {
 	}
 	wg.Wait()
 	c.Extra("cold_start_children", done)
+	c.Extra("cold_start_environments", len(hostileEnvs))
 	if done < n {
 		c.Inconclusive(fmt.Sprintf("only %d of %d cold-start children reported", done, n))
 	}
+}
+
+// hostileEnvs are the locale and zone settings real installations have and the sandbox has not. The
+// values a library computes must not depend on them; each cold child runs under one of them
+// (index modulo 11, so that every first operation meets several settings).
+var hostileEnvs = [][]string{
+	{},
+	{"LC_ALL=en_US.UTF-8"},
+	{"LC_NUMERIC=de_DE.UTF-8"},
+	{"LANG=fr_FR.UTF-8", "LANGUAGE=fr:en"},
+	{"LC_ALL=C"},
+	{"TZ=America/St_Johns"},
+	{"LC_NUMERIC=en_US.UTF-8", "LANG=cs_CZ.UTF-8"},
+	{"LC_ALL=ja_JP.eucJP", "TZ=Asia/Tokyo"},
+	{"LC_ALL=tr_TR.UTF-8", "LANG=tr_TR.UTF-8"},
+	{"LANG=en_IN", "LC_NUMERIC=en_IN"},
+	{"TZ=Pacific/Apia", "LC_TIME=ar_SA.UTF-8", "LC_MONETARY=de_CH.UTF-8", "LC_CTYPE=el_GR.UTF-8"},
+}
+
+// coldEnv is the parent's environment without locale and zone variables, plus the i-th hostile setting.
+func coldEnv(i int) []string {
+	var env []string
+	for _, kv := range os.Environ() {
+		if strings.HasPrefix(kv, "LC_") || strings.HasPrefix(kv, "LANG=") || strings.HasPrefix(kv, "LANGUAGE=") || strings.HasPrefix(kv, "TZ=") {
+			continue
+		}
+		env = append(env, kv)
+	}
+	return append(env, hostileEnvs[i%len(hostileEnvs)]...)
 }
 
 // coldGeneric builds a cold case from a list of first operations and a short monitored workload.
